@@ -52,6 +52,7 @@ def gen(rng, tier):
     w['fire'] = rng.choice([0, 0, 3, 12])
     prof.top_timeouts = rng.choice([2, 2, 8])
     w['succeed'] = rng.choice([0, 2, 3])
+    w['addcb'] = rng.choice([0, 0, 1, 2])      # plain callbacks and event chaining (dst.trigger as a callback of src)
     prof.handlers = ['cont', 'cont', 'rewait', 'ret', 'other', 'raise', 'none']
     if rng.random() < 0.15:
         # a crowd: many sleepers with distinct due times (a deep agenda) and interrupts that pull sleepers off their
